@@ -318,6 +318,13 @@ def run(ctx):
     from .c13 import COLUMN_SETS, column_order_rule
     rules.append(column_order_rule(ctx, "C05", "C05.R6", {k: v for k, v in COLUMN_SETS.items() if "message" in k or "bind::" in k}))
     rules.append(no_cell_deleted_rule(ctx, "C05", "C05.R7"))
+    # the or_other block of the row loop, evaluated for select rows with and without logic cells (shared with C09.R6)
+    from . import c09 as _c09o
+    from .c08 import _take as _take_o
+    r_oo = Rule("C05", "C05.R7", "a generated companion question carries none of the select row's logic cells", floor=6,
+                necessary="logic cells duplicated onto the generated <name>_other question give it a bind the author never wrote")
+    _take_o(r_oo, _c09o.run(ctx), "C09.R6", lambda c: c.startswith("or_other["))
+    rules.append(r_oo)
     return rules
 
 
